@@ -117,6 +117,11 @@ def install(proj) -> None:
                 return True, call(ev, r[1], args, kw)
             if r and r[0] == "external":
                 return external(ev, node, r[1])
+            if r and r[0] == "class":
+                # a private record / helper class of the package constructed inside the evaluated body
+                shared_runtime()
+                args, kw = ev._call_args(node)
+                return True, ext["rt"].new(r[1], args, kw, None)
         if len(parts) == 2 and parts[0] not in ev.env and ev.module is not None:
             # np.isclose(...) with `import numpy as np`
             target = ev.module.imports.get(parts[0])
@@ -126,12 +131,16 @@ def install(proj) -> None:
 
     ext = {}
 
-    def external(ev: Evaluator, node: ast.Call, dotted_name: str) -> Tuple[bool, Any]:
-        """numpy / math / itertools ... functions the rule did not script: the shared model of engines/stdlib.py."""
+    def shared_runtime():
         if not ext:
             from .instances import Runtime
             from .stdlib import install as install_std
-            ext["table"] = install_std(Runtime(proj)).externals
+            ext["rt"] = install_std(Runtime(proj))
+            ext["table"] = ext["rt"].externals
+
+    def external(ev: Evaluator, node: ast.Call, dotted_name: str) -> Tuple[bool, Any]:
+        """numpy / math / itertools ... functions the rule did not script: the shared model of engines/stdlib.py."""
+        shared_runtime()
         h = ext["table"].get(dotted_name)
         if h is None or not hasattr(h, "abs_call"):
             return False, None
